@@ -721,10 +721,10 @@ def replay(ctx, data):
 LEVEL_TEXT = ('Machine-checked proof (Coq 8.16.1) over an executable model of Pony\'s optimistic concurrency control (read/write bits, optimistic '
               'WHERE criteria, rowcount check, commit/rollback) for one shared object: for all programs of reads/writes/commit, any number of sessions '
               'and ALL interleavings (induction over the schedule), a session\'s update is applied iff every protected attribute it observed from '
-              'the database still holds the observed value; otherwise it ends in OptimisticCheckError and the row is untouched; and (C20_serial) a successful commit of a session whose reads are all protected leaves the row exactly as if that session had run alone at commit time; (model Life) for one session running several transactions with explicit commits, get_for_update and created objects, against arbitrary commits of other sessions: the for_update exemption is alive only while the row is uninserted or the session holds the write lock, and every UPDATE that is applied - with criteria or exempt - finds the protected attributes read unchanged. Every run replays '
+              'the database still holds the observed value; otherwise it ends in OptimisticCheckError and the row is untouched; and (C20_serial) a successful commit of a session whose reads are all protected leaves the row exactly as if that session had run alone at commit time; (model Life) for one session running several transactions with explicit commits, get_for_update and created objects, against arbitrary commits of other sessions: the for_update exemption is alive only while the row is uninserted or the session holds the write lock, and every UPDATE that is applied - with criteria or exempt - finds the protected attributes read unchanged; (model Multi) one session on several objects with auto-flush: a commit is all-or-nothing across objects and every object of a successful flush passed its own check. Every run replays '
               'all interleavings of pairs (and seeded triples) of short programs on real threaded db_sessions over a SQLite file and compares rows, '
               'outcomes, observed values and captured UPDATE statements with the model by vm_compute.')
-LEVEL_NOTE = ('Partial: single shared row (multi-object atomicity is the database transaction, C17); in the n-session schedule model flushes happen only at commit; '
+LEVEL_NOTE = ('Partial: the n-session schedule model has a single shared row (several objects are modelled for one session against arbitrary external commits, model Multi); DELETE carries no optimistic criteria (pinned by a direct test, outside the statement); in the n-session schedule model flushes happen only at commit; '
               'multi-transaction sessions, get_for_update and created objects are modelled for one session against arbitrary external commits (model Life), not inside the n-session schedule model; serial equivalence is proved for sessions whose reads are all protected (optimistic opt-outs are the stated exception); PostgreSQL not executed. '
               'Trusted: Coq kernel + vm_compute; the thread scheduler harness and SQL capture; SQLite statement atomicity.')
 TECHNIQUE = 'Coq invariant proof over all schedules of an executable model; vm_compute correspondence with real threaded sessions on every enumerated interleaving; property oracle search'
